@@ -34,7 +34,7 @@ structure Checks (α : Type) where
   cycleOk : Design → Elab → List Nat → Val → (Nat → Bool) → Bool
   shape12 : α → Simul.Use → List Nat → List (Nat × List Nat) → Bool
   nbr : α → Simul.Use → Bool
-  shape13 : α → Nat → Nat → List Nat → Bool
+  shape13 : α → Nat → Nat → List Nat → List (Nat × List Nat) → Bool
   linkEn : α → Val → (Nat → Bool) → List Nat → Bool
   derEn : Val → (Nat → Bool) → List (Nat × List Nat) → Bool
   dflt : Val → Simul.Use → Bool
@@ -164,7 +164,7 @@ def start {α : Type} (ck : Checks α) (cfg : Cfg) : Option (St α) × String :=
       let L := Simul.linkSites D out.enDeps cfg.nus
       let s12 := cfg.uses.all fun u => ck.shape12 pa u L out.enDeps
       let nbr := cfg.uses.all fun u => !u.priority || ck.nbr pa u
-      let s13 := cfg.pairs.all fun (a, b) => ck.shape13 pa a b L
+      let s13 := cfg.pairs.all fun (a, b) => ck.shape13 pa a b L out.enDeps
       let env : Simul.Env := { pre := cfg.pre, out := out, E := E, order := order, uses := cfg.uses, rdy := cfg.rdy,
                                en := cfg.en, args := cfg.args, nus := cfg.nus }
       let ids := List.range n
